@@ -102,4 +102,54 @@ mod verif_witness {
 			k += 1;
 		}
 	}
+
+	// ---- C09: in-place / boxed-closure evaluation against the element-by-element stream (witness for the combinators unit) ----
+	// Change(1): next(x) = x - previous input; cheap float arithmetic, state-dependent, so any skipped or doubled step shows
+	#[kani::proof]
+	#[kani::unwind(6)]
+	fn vk_sequence_apply_is_stream() {
+		use crate::core::Sequence;
+		use crate::methods::Change;
+		let a = [small(), small(), small(), small()];
+		let mut s = a;
+		let mut m1 = Change::new(1, &a[0]).unwrap();
+		let mut m2 = Change::new(1, &a[0]).unwrap();
+		Sequence::apply(&mut s, &mut m1);
+		let mut i = 0;
+		while i < 4 {
+			let y = m2.next(&a[i]);
+			assert!(s[i].to_bits() == y.to_bits());
+			i += 1;
+		}
+	}
+	#[kani::proof]
+	#[kani::unwind(6)]
+	fn vk_method_new_apply_is_stream() {
+		use crate::methods::Change;
+		let a = [small(), small(), small(), small()];
+		let mut s = a;
+		Change::new_apply(1, &mut s).unwrap();
+		let mut m2 = Change::new(1, &a[0]).unwrap();
+		let mut i = 0;
+		while i < 4 {
+			let y = m2.next(&a[i]);
+			assert!(s[i].to_bits() == y.to_bits());
+			i += 1;
+		}
+	}
+	#[kani::proof]
+	#[kani::unwind(6)]
+	fn vk_method_new_fn_is_stream() {
+		use crate::methods::Change;
+		let a = [small(), small(), small()];
+		let mut f = Change::new_fn(1, &a[0]).unwrap();
+		let mut m2 = Change::new(1, &a[0]).unwrap();
+		let mut i = 0;
+		while i < 3 {
+			let y = m2.next(&a[i]);
+			let z = f(&a[i]);
+			assert!(z.to_bits() == y.to_bits());
+			i += 1;
+		}
+	}
 }
